@@ -419,6 +419,14 @@ func c09Run(tp *core.Tape, e *core.Env) {
 				return
 			}
 		}
+		if tp.Bool("b_refused_before_it_is_accepted", 1, 2) {
+			// the first attempt to deliver B is refused (Prometheus does not reload), the coordinator's
+			// retry of the very same update is accepted: B is acknowledged then, and stored
+			sc.ReloadErr = fmt.Errorf("prometheus reload failed (injected)")
+			_ = sc.PostTargets(&shard.UpdateTargetsRequest{Targets: B})
+			sc.ReloadErr = nil
+			e.Fault("prom_reload_fails")
+		}
 		if err := sc.PostTargets(&shard.UpdateTargetsRequest{Targets: B}); err != nil {
 			e.Undecided("command level: fault-free update B failed: %v", err)
 			return
